@@ -482,8 +482,8 @@ func vfHammer(t *testing.T, check string) {
 		workers := []int{8, 16, 32, 64}[ci%4]
 		focus := []string{"mixed", "eventstream", "futures"}[(ci/2)%3]
 		R.Journal(ci, fmt.Sprintf("batch workers=%d dur=%v focus=%s", workers, dur, focus))
-		if focus == "futures" {
-			// widen the windows inside future.go (yield points inserted by vinstr; lock-free fuzz mode, see verifrt)
+		if focus == "futures" || focus == "eventstream" {
+			// widen the windows inside future.go / system.go / event_stream.go (yield points inserted by vinstr; lock-free fuzz mode, see verifrt)
 			verifrt.Begin(verifrt.ModeFuzzFree, seed, 0)
 		}
 		vfHammerBatch(R, ci, seed, workers, dur, focus)
